@@ -42,6 +42,9 @@ def check(ctx):
     comp = Component(ctx.repo, REL, "WideFifo", rule="C15")
     comp.require_modelled("C15")
     ctx.floor("C15", "WideFifo configurations", len(comp.configs), 2, comp.site)
+    from . import c15x as _c15x
+
+    _c15x.wide_fifo_layouts(ctx)
     for ex in comp.configs:
         cn = cfg_name(ex)
         w, r, p, c = (need_body(ex, n, "C15", comp.site) for n in ("write", "read", "peek", "clear"))
@@ -53,6 +56,9 @@ def check(ctx):
         o = ex.obj(level)
         m = pmatch("Signal(range(Q_n))", o.ctor)
         ctx.check(m is not None and lin_equal(m["n"], ("op", "+", CAP, ("c", 1))), "C15.level-range", o.site, f"WideFifo.level.shape[{cn}]", found=tstr(o.ctor), required="Signal(range(capacity + 1))")
+        from . import c15x
+
+        c15x.wide_fifo_counters(ctx, ex, cn, level, wcount, rcount, CAP)
         t = decision_table(ex, level, sync=True)
         check_table(ctx, "C15.clear-wins", comp.site, f"WideFifo.level'[{cn}]", t, [
             (run_f(c), const_pred(0), "clear empties the queue (last writer)"),
@@ -90,6 +96,8 @@ def check(ctx):
         rf, pf = returned_fields(r), returned_fields(p)
         ctx.check(rf.get("count") == rcount, "C15.read-returns-count", r.site, f"WideFifo.read.ret.count[{cn}]", found=tstr(rf.get("count", ("c", None))), required="read reports the number of removed elements")
         pc = pf.get("count")
+        if pc is not None and pc[0] == "obj":
+            c15x.wide_fifo_counters(ctx, ex, cn + ",available", level, pc, pc, CAP, only_read=True)
         if pc is None:
             ctx.bad("C15.peek-count", p.site, f"WideFifo.peek.ret.count[{cn}]", found="none", required="min(level, read_width)")
         else:
